@@ -77,6 +77,11 @@ CHECKS = {
   text="Model checking with conformance: LinAlg.tla models a pool of linear combinations built by add/sub/neg/scale (scalars 0,1,-1,2,p-1,p,p+1); TLC checks homomorphism and immutability on the model and prints every history of 2 operations (5760) plus ~6000 simulated histories of 5 operations; each is replayed on the LC class of snarkjs, zkinterface (bn128, bls12-381, curve25519 configurations), qaptools and the harness recorder, and after every operation the canonical term maps of ALL pool objects (result, operands, shared one/zero) must equal the spec's pool. The reported modulus is compared limb-wise with the curve orders in CurveOrders.tla and fieldinverse is checked for 25 positive, negative and unreduced arguments per backend by the exact integer identity |x|*inv = 1 + k*p.",
   note="Coefficients stay small because scalars are s + t*p; primality of the curve-order constants is checked once by sympy in setup_cmd, not by TLC; flatbuffers import shim and qaptools stub binaries are used to load the backends.",
   design="5/C13"),
+ "C10": dict(
+  technique="TLC evaluation of SnarkjsFile.tla (WellFormed, Canonical, FaithfulCircuit, FaithfulWitness, FileSat) on independently decoded circuit.r1cs / witness.wtns, small-prime instantiation + bn128 with BigNat limb arithmetic and quotient certificates",
+  text="Model checking by trace validation of artefacts: ~190 programs (random compositions in all guard/ignore modes, every operator with mixed signs, witness classes negative / >= p / wider than 256 bit, zero coefficients, empty linear combinations, empty circuit) run on the real pysnark.snarkjsbackend with the modulus rebound to 251, and ~45 at the real bn128 prime; prove() writes the files in a scratch directory, an independent parser decodes them, and TLC decides container well-formedness (magic, version, section table, declared sizes vs content, counts), canonicity of every element, equality with the backend's in-memory trace under the wire numbering one/public/private, and satisfaction of the decoded constraints by the decoded witness.",
+  note="nLabels and the nPubOut/nPubIn/nPrvIn split are not judged; certificates are harness-supplied, the integer identities are TLC's.",
+  design="5/C10"),
 }
 
 NOT_YET = "check not built yet in this round (planned, see DESIGN.md section 5)"
